@@ -152,12 +152,51 @@ func runC03(c c03Case) Verdict {
 	}
 	failures, hostTypeChanges, compoundOnExisting := 0, 0, 0
 	var cls []string
-	passes := 2
+	// pass 1 and 2: the node jumps back to itself; then the runner's own snapshot (the variables as of that jump) is
+	// restored and the history runs a third time: reads and writes must still go through the supplied storer
+	passes := 3
 	if len(c.Steps) > 0 && !hasScriptStep(c) {
 		passes = 1
 	}
+	var atJump map[string]mval
 	for pass := 0; pass < passes; pass++ {
+		if pass == 2 {
+			if atJump == nil {
+				break
+			}
+			if rec != nil {
+				rec.mute = true
+			}
+			err := dr.RestoreAt(dr.Snapshot())
+			if rec != nil {
+				rec.mute = false
+			}
+			if err != nil {
+				return failf("RestoreAt(Snapshot()) failed: %v", err)
+			}
+			m.store = atJump
+			if rec != nil {
+				rec.mute = true
+			}
+			view, problem := storeView(storer, c03Vars)
+			if rec != nil {
+				rec.mute = false
+			}
+			if problem != "" {
+				return failf("%s after restoring the runner's own snapshot", problem)
+			}
+			if d := sameStore(m.store, view); d != "" {
+				return failf("after RestoreAt(Snapshot()) the supplied storer does not hold the variables as of the last node entry (expected vs storer): %s\nscript:\n%s\nsteps %s", d, src, showC03Steps(c.Steps))
+			}
+		}
 		for i, st := range c.Steps {
+			if pass == 1 && atJump == nil && (st.K == "set" || st.K == "declare" || st.K == "show") {
+				// the next Next call performs the jump back to the node start: this is the state a snapshot captures
+				atJump = map[string]mval{}
+				for k, v := range m.store {
+					atJump[k] = v
+				}
+			}
 			writesBefore := 0
 			if rec != nil {
 				writesBefore = len(rec.writes())
